@@ -306,9 +306,20 @@ def main(argv=None):
     exit_code = 0
     violations_out = []
     known_printed = {}
+    directed_info = []
 
     # ---- single replay
     if args.replay:
+        doc0 = json.load(open(args.replay))
+        if doc0.get("directed"):
+            results = [r for r in profile.directed(known) if r.get("world") == doc0["directed"]]
+            bad = [v for r in results for v in r["violations"] if v["oracle"] == doc0["violation"]["oracle"] and v["sig"] == doc0["violation"]["sig"]]
+            if bad:
+                print("violation: oracle=%s sig=%s\n  %s" % (bad[0]["oracle"], json.dumps(bad[0]["sig"], sort_keys=True), bad[0]["detail"]))
+                print("VIOLATION property=%s replay=%s" % (prop, os.path.abspath(args.replay)))
+                return 1
+            print("replay (directed): no violation")
+            return 0
         doc, res = replay_file(prop, args.replay, known)
         for h in res["known_hits"]:
             print("KNOWN-FINDING: property=%s %s [%s]" % (prop, _what(known_entries, h["known"]), h["known"]))
@@ -354,6 +365,25 @@ def main(argv=None):
                 print("VIOLATION property=%s replay=%s" % (prop, path))
                 violations_out.append({"replay": path, "violation": v})
                 exit_code = 1
+
+    # ---- directed whole-database checks of the profile (e.g. C14: the shipped databases)
+    if hasattr(profile, "directed"):
+        for res in profile.directed(known):
+            directed += 1
+            for h in res["known_hits"]:
+                known_printed.setdefault(h["known"], h)
+            seen = set()
+            for v in res["violations"]:
+                key = (v["oracle"], json.dumps(v["sig"], sort_keys=True))
+                if key in seen:
+                    continue
+                seen.add(key)
+                print("violation (directed %s): oracle=%s sig=%s\n  %s" % (res.get("world"), v["oracle"], key[1], v["detail"]))
+                path = write_replay(prop, "%s-directed-%s-%d.json" % (prop, res.get("world"), len(seen)), res["cfg"], [], v, {"directed": res.get("world")})
+                print("VIOLATION property=%s replay=%s" % (prop, path))
+                violations_out.append({"replay": path, "violation": v})
+                exit_code = 1
+            directed_info.append({"world": res.get("world"), "entities": res.get("entities"), "oracle_checks": res["oracle_checks"]})
 
     # ---- seeded search
     if args.tier == "quick":
@@ -417,7 +447,7 @@ def main(argv=None):
         with open(args.digests_out, "w") as f:
             json.dump({str(k): v for k, v in sorted(tot["digests"].items())}, f)
     if not args.no_evidence:
-        write_evidence(prop, args.tier, verif_seed, profile, tot, wall, violations_out, known_printed, known_entries, directed, shrink_stats, args)
+        write_evidence(prop, args.tier, verif_seed, profile, tot, wall, violations_out, known_printed, known_entries, directed, shrink_stats, args, directed_info)
     print(
         "summary: runs=%d steps=%d oracle_checks=%d distinct_histories=%d nontrivial=%d faults=%s violations=%d known=%d harness=%d wall=%.1fs"
         % (
